@@ -84,7 +84,7 @@ Qed.
 Lemma sim_step : forall st ss o, sim st ss -> sim (step core_with st o) (sstep ss o).
 Proof.
   intros st ss o Hsim. pose proof Hsim as (Hg & Hs & Hc).
-  destruct o as [c fs | c fs | c fs | c l | c | c]; cbn [step sstep].
+  destruct o as [c fs | c fs | c fs | c l | c | c | g]; cbn [step sstep].
   - apply sim_fresh; [exact Hsim|]. rewrite abs_logger_with, Hg. reflexivity.
   - apply sim_fresh; [exact Hsim|]. rewrite abs_logger_with, (sim_logger_of st ss c Hsim). reflexivity.
   - apply sim_update; [exact Hsim|]. intros k. apply abs_logger_with.
@@ -92,6 +92,7 @@ Proof.
   - apply sim_update; [exact Hsim|]. intros k. apply abs_custom_level.
   - unfold sim. cbn. split; [exact Hg | split; [exact Hs |]].
     unfold holder_of, sholder_of. rewrite Hc. reflexivity.
+  - unfold sim. cbn. split; [reflexivity | split; [exact Hs | rewrite Hc; reflexivity]].
 Qed.
 
 Lemma sim_init : forall g, sim (init g) (sinit (abs g)).
@@ -287,6 +288,46 @@ Proof.
   destruct (run_cell cop core fn (cpure core_with) cident cprog cfn cprog_shape cident_pure
               c0 progs sched st tr Hrun) as (Hc & Hp & _).
   split; [rewrite Hc; apply abs_fold_capply | eexists; exact Hp].
+Qed.
+
+(* ------------------------------------------------------------------ progress *)
+Definition cops_of (t : nat) (st : mstate cop core) : list cop :=
+  match nth_error (m_threads st) t with Some th => t_ops th | None => [] end.
+
+Lemma conc_lockfree : forall c0 progs sched0 st tr0 t o rest sched st' tr',
+  crun (cinit c0 progs) sched0 = (st, tr0) ->
+  cops_of t st = o :: rest -> (3 <= occ t sched)%nat ->
+  crun st sched = (st', tr') ->
+  In (t, o) tr' \/ exists t' o', t' <> t /\ In (t', o') tr'.
+Proof.
+  exact (progress_lockfree cop core fn (cpure core_with) cident cprog cfn cprog_shape cident_pure).
+Qed.
+
+Lemma conc_obstruction_free : forall c0 progs sched0 st tr0 t o rest sched st' tr',
+  crun (cinit c0 progs) sched0 = (st, tr0) ->
+  cops_of t st = o :: rest -> (3 <= occ t sched)%nat ->
+  crun st sched = (st', tr') ->
+  (forall e, In e tr' -> fst e = t) ->
+  In (t, o) tr'.
+Proof.
+  exact (progress_obstruction_free cop core fn (cpure core_with) cident cprog cfn cprog_shape cident_pure).
+Qed.
+
+Lemma conc_solo : forall c0 progs sched0 st tr0 t o rest st' tr',
+  crun (cinit c0 progs) sched0 = (st, tr0) ->
+  cops_of t st = o :: rest ->
+  crun st (repeat t 3) = (st', tr') -> In (t, o) tr'.
+Proof.
+  exact (progress_solo cop core fn (cpure core_with) cident cprog cfn cprog_shape cident_pure).
+Qed.
+
+Lemma conc_failed_cas : forall c0 progs sched0 st tr0 t th o rest mid st' tr',
+  crun (cinit c0 progs) sched0 = (st, tr0) ->
+  nth_error (m_threads st) t = Some th -> t_ops th = o :: rest -> t_pc th = 0%nat ->
+  crun st (t :: mid ++ [t]) = (st', tr') ->
+  In (t, o) tr' \/ exists t' o', t' <> t /\ In (t', o') tr'.
+Proof.
+  exact (progress_failed_cas cop core fn (cpure core_with) cident cprog cfn cprog_shape cident_pure).
 Qed.
 
 (* ------------------------------------------------------------------ pinned code refuted *)
